@@ -203,9 +203,56 @@ fn histories_for<T: Real + Elem>(ctx: &mut Ctx, item: &mut usize, sample_den: u6
     }
 }
 
-pub fn run_c10(ctx: &mut Ctx) {
+/// histories enumerated by TLC from the faithful AVX planner model (spec/MC_Histories.tla): replayed on the AVX and the
+/// automatic planner with the build hooks on, so that the predicted radix chains are compared step by step
+fn tlc_histories<T: Real + Elem>(ctx: &mut Ctx, item: &mut usize, lines: &[(String, Vec<usize>)], keep_den: u64) {
+    let mut refs = RefCache::<T> { m: HashMap::new() };
+    let mine: Vec<&Vec<usize>> = lines.iter().filter(|(e, _)| e == T::ELEM).map(|(_, s)| s).collect();
+    for (gi, group) in mine.chunks(16).enumerate() {
+        for kind in [Kind::Avx, Kind::Auto] {
+            let idx = *item;
+            *item += 1;
+            let label = format!("hist-tlc {} {} group{}", kind.name(), T::ELEM, gi);
+            if !ctx.scenario(idx, &label) {
+                continue;
+            }
+            let mut first = true;
+            for (qi, seq) in group.iter().enumerate() {
+                let h = Rng::new(ctx.seed ^ ((gi * 131 + qi) as u64) ^ 0x7157).next();
+                if h % keep_den != 0 {
+                    continue;
+                }
+                if !first {
+                    ctx.reset(&label);
+                }
+                first = false;
+                // same direction throughout (the cache is per direction), alternating by history
+                let d = if (gi + qi) % 2 == 0 { FftDirection::Forward } else { FftDirection::Inverse };
+                let reqs: Vec<Req> = seq.iter().map(|&n| (n, d)).collect();
+                replay_history(ctx, &mut refs, kind, &reqs, true);
+            }
+        }
+    }
+}
+
+pub fn run_c10(ctx: &mut Ctx, scenarios: &str) {
     let (sample_den, random_count) = if ctx.quick() { (97, 6) } else { (5, 60) };
     let mut item = 0usize;
+    if !scenarios.is_empty() {
+        let mut lines: Vec<(String, Vec<usize>)> = Vec::new();
+        if let Ok(txt) = std::fs::read_to_string(scenarios) {
+            for line in txt.lines() {
+                if let Ok(v) = serde_json::from_str::<serde_json::Value>(line) {
+                    if let (Some(e), Some(sq)) = (v["elem"].as_str(), v["seq"].as_array()) {
+                        lines.push((e.to_string(), sq.iter().filter_map(|x| x.as_u64().map(|y| y as usize)).collect()));
+                    }
+                }
+            }
+        }
+        let keep = if ctx.quick() { 4 } else { 1 };
+        tlc_histories::<f32>(ctx, &mut item, &lines, keep);
+        tlc_histories::<f64>(ctx, &mut item, &lines, keep);
+    }
     histories_for::<f32>(ctx, &mut item, sample_den, random_count);
     histories_for::<f64>(ctx, &mut item, sample_den, random_count);
 }
